@@ -742,10 +742,10 @@ struct TypedGen {
     if (k < 94) {  // quantifier
       ++binders;
       const auto saved = scope;
-      Ty et = pickScopeTypeOr(randType(2));
+      Ty et = optReuseNames && c.coin() ? Ty::Tuple({randType(1), randType(1)}) : pickScopeTypeOr(randType(2));
       EP dom = genTerm(Ty::Set(et), depth - 1);
       EP decl;
-      if (c.chance(1, 5)) { features[2] = true; std::vector<EP> vs; const int n = c.ipick(2, 3); for (int i = 0; i < n; ++i) vs.push_back(declare(et)); decl = mk(TID::NT_ENUM_DECL, vs); }
+      if (optReuseNames ? c.coin() : c.chance(1, 5)) { features[2] = true; std::vector<EP> vs; const int n = c.ipick(2, 3); for (int i = 0; i < n; ++i) vs.push_back(declare(et)); decl = mk(TID::NT_ENUM_DECL, vs); }
       else decl = declare(et);
       EP body = genLogic(depth - 1);
       scope = saved;
